@@ -103,6 +103,9 @@ pub struct KbArgs {
 pub enum Resolver {
     /// Directory keyed by the `iss` string; unknown issuers get a key that signed nothing.
     Directory,
+    /// The directory refuses (the resolver type has no error channel: the callback panics).
+    /// Whatever the library does with that, it must not return claims.
+    Refuses,
     /// Fault: always answer with this roster key.
     Fixed(String),
 }
@@ -166,6 +169,8 @@ pub struct World {
     /// atomics leg: (atomic operations seen inside jobs, preemptions taken there) during
     /// interleaved verifications
     pub atomic_stats: (u64, u64),
+    /// simulated seconds the key directory takes to answer the next verifications' lookups
+    pub resolver_latency_s: i64,
 }
 
 /// Another verification that happens "at the same time" as the one under test: on another
@@ -231,11 +236,39 @@ pub mod auto_salts {
     }
 }
 
+// Does `SDJWTIssuer` implement Clone in the tree under test? (It does not today; an application
+// that is handed a Clone-able issuer will give every worker a copy.) Decided at compile time by
+// autoref-based dispatch, so the harness compiles against both kinds of tree.
+struct CloneProbe<'a, T>(&'a T);
+trait ViaDefault<T> {
+    fn try_clone(&self) -> Option<T> {
+        None
+    }
+}
+impl<'a, T> ViaDefault<T> for &CloneProbe<'a, T> {}
+trait ViaClone<T> {
+    fn try_clone(&self) -> Option<T>;
+}
+impl<'a, T: Clone> ViaClone<T> for CloneProbe<'a, T> {
+    fn try_clone(&self) -> Option<T> {
+        Some(self.0.clone())
+    }
+}
+
+/// A copy of an issuer instance that has been constructed already, if the type can be cloned.
+pub fn try_clone_issuer(h: &IssuerHandle) -> Option<IssuerHandle> {
+    let g = h.lock().unwrap_or_else(|e| e.into_inner());
+    let inst = g.inst.as_ref()?;
+    #[allow(clippy::needless_borrow)]
+    let copy: Option<SDJWTIssuer> = (&CloneProbe(inst)).try_clone();
+    copy.map(|c| Arc::new(Mutex::new(LazyIssuer { key: g.key.clone(), alg: g.alg.clone(), inst: Some(c) })))
+}
+
 impl World {
     pub fn new(directory: BTreeMap<String, String>) -> World {
         #[cfg(feature = "mock")]
         auto_salts::new_world();
-        World { rt: Runtime::new(), directory: Arc::new(directory), signed_by: BTreeMap::new(), kb_made: BTreeMap::new(), ops: 0, panics: Vec::new(), traffic: None, atomic_stats: (0, 0) }
+        World { rt: Runtime::new(), directory: Arc::new(directory), signed_by: BTreeMap::new(), kb_made: BTreeMap::new(), ops: 0, panics: Vec::new(), traffic: None, atomic_stats: (0, 0), resolver_latency_s: 0 }
     }
 
     pub fn note_panic<T>(&mut self, what: &str, o: &Out<T>) {
@@ -355,12 +388,14 @@ impl World {
         let reentrant: Option<(String, Fmt)> = traffic.as_ref().filter(|t| t.mode == 2).map(|t| (t.wire.clone(), t.fmt));
         let interleaved = traffic.as_ref().filter(|t| t.mode == 1).cloned();
         let yield_in_resolver = interleaved.is_some();
+        let latency = self.resolver_latency_s;
         let dir_inner = self.directory.clone();
         let job = move || {
             let cb = Box::new(move |iss: &str, header: &Header| {
                 let kid = match &res {
                     Resolver::Directory => dir.get(iss).cloned().unwrap_or_else(|| UNKNOWN_ISSUER_KEY.to_string()),
                     Resolver::Fixed(k) => k.clone(),
+                    Resolver::Refuses => panic!("key directory: unknown issuer (resolver refuses)"),
                 };
                 calls2.lock().unwrap_or_else(|e| e.into_inner()).push((iss.to_string(), format!("{:?}", header.alg), kid.clone()));
                 *seen2.lock().unwrap_or_else(|e| e.into_inner()) = serde_json::to_value(header).ok();
@@ -372,6 +407,9 @@ impl World {
                 }
                 if yield_in_resolver {
                     crate::rt::yield_point(crate::rt::YieldKind::Explicit);
+                }
+                if latency > 0 {
+                    seams::advance_clock_s(latency);
                 }
                 keys::dec_key(&kid)
             });
